@@ -15,6 +15,18 @@ claims={
    text="negatesBadfilter is proved equal to the structural twin relation over every semantic field of NetworkRule; removeBadfilterRules is proved, with loop invariants over fold-style spec functions and for any slice length and any number of $badfilter rules, to return exactly the members of its input that are neither $badfilter rules nor twins of one, never more elements than it was given, without writing to its input.",
    note=TB+"; reflect.DeepEqual and slices.Equal enter as assumed contracts (structural equality); fold congruences and induction lemmas are themselves discharged obligations.",
    ref="5 C08", tech="contract-based deductive verification: loop invariants, fold congruence lemmas by induction, SMT portfolio"),
+ "C04":dict(level="proof",
+   text="NetworkRule.Match is proved equal to the conjunction 'shortcut contained AND third-party flag AND content-type masks AND $denyallow AND $domain AND $dnstype AND $ctag AND $client AND pattern', where each modifier conjunct is a specification written from the documentation as an order-free statement (existential membership over the value lists; exclude-before-include precedence; 0 = all/none for the type masks). Proved for all rules and requests: the type-mask conjunct in QF_BV; the $dnstype conjunct with loop invariants over the two lists; the $ctag conjunct including correctness of the sorted-merge intersection (requires sortedness, which loadCTags is proved to establish and the request side carries as the documented precondition); the include/exclude precedence of $domain, $denyallow, $client, $ctag. Because the list conjuncts are existential over list elements, value order cannot matter.",
+   note=TB+"; ATOMS whose meaning is the result of one helper and which are NOT further specified here: anyDomain (isDomainOrSubdomainOfAny: subdomain / wildcard-TLD semantics of one domain list), hasClient (clients.containsAny), patternOK (matchPattern: the compiled pattern applied to URL or hostname - its language is C03) and the substring test 'contains'. Unchecked assumption: a rule reaching Match has sorted tag lists (justified by the proved postcondition of NewNetworkRule/loadOption, the only writers of those fields).",
+   ref="5 C04", tech="contract-based deductive verification: WP over go/ssa, loop invariants, SMT portfolio"),
+ "C13":dict(level="proof",
+   text="Per-call purity obligations: (1) every field of the pooled rules.Request handed to the engines is proved to be overwritten with a function of the DNS request only - the field list is enumerated through go/types, so a field added later without a reset fails an obligation; (2) frames: removeBadfilterRules, removeDNSRewriteRules, NewMatchingResult, GetDNSBasicRule, DNSRewritesAll, DNSRewrites, the table lookups and the engine queries are proved to write nothing outside fresh memory, the rule cache and a rule's lazily compiled regex pair (e.g. rules[:i:i] must force append to reallocate); (3) the rule cache is proved monotone: an entry once present is never changed or dropped, a hit returns the stored rule, only non-nil rules of the requested index are inserted; results of DNSRewrites live in fresh memory (earlier results cannot be altered).",
+   note=TB+"; the final induction over query histories (each step preserves the invariants, hence answers do not depend on history) is a paper argument on top of these per-call obligations and is not machine-checked; identity is 'same rule texts', not pointer equality.",
+   ref="5 C13", tech="contract-based deductive verification: frame (assigns) obligations, per-field postconditions enumerated from go/types"),
+ "C19":dict(level="proof",
+   text="Under a fault model in which every list retrieval may fail at every call (the contract of RuleList.RetrieveRule promises nothing on error), the lookups are proved crash-free (a retrieved rule is dereferenced only after its nil test; all index/nil/type-assertion obligations discharged) and sound: every rule returned by ShortcutsTable/DomainsTable/SeqScanTable.MatchAll and NetworkEngine.MatchAll satisfies the Match specification for the request, so results under faults are a subset of the fault-free results; the rule cache is proved monotone (rules already materialised keep being served: a cache hit returns the stored rule with a nil error) and never to receive a nil rule.",
+   note=TB+"; what the OS does with a closed descriptor is the assumed contract of os.File.Seek/Read (an error); DNS host-rule lookup is covered for crash-freedom and well-formedness of returned rules, its soundness (rule.Match(hostname)) belongs to C02.",
+   ref="5 C19", tech="contract-based deductive verification: demonic fault model in the interface contract, loop invariants, SMT portfolio"),
  "C06":dict(level="proof",
    text="NewMatchingResult and GetDNSBasicRule are proved, for any slice lengths and any order, to select a basic rule that is (a) a member of the effective rules (not disabled by a $badfilter twin, not a $badfilter rule, not a $dnsrewrite rule, not a cookie/replace/csp/stealth rule, and for blocking rules not suppressed by an effective $urlblock / $genericblock document exception of the referrer), (b) nil exactly when there is no such candidate, and (c) not outranked by any candidate, hence of maximal verdict class; the document-level flags are proved equal to order-free existential statements over the referrer rules, so the verdict class cannot depend on rule order or list split. GetBasicResult is proved equal to its three-way specification.",
    note=TB+"; callee contracts used: removeBadfilterRules, removeDNSRewriteRules, IsHigherPriority (all discharged under C08/C07); Engine.MatchRequest / NetworkEngine.Match compose MatchAll with these and are not yet under contract.",
